@@ -1,14 +1,286 @@
 // Harnesses for src/component/datatype.rs (child module `component::datatype::verif_c18`).
+//
+// C18 "Public component constructors are total and imply serialisability":
+//   every public constructor either returns Err or returns a component that verifies, serialises
+//   without panicking to exactly `count_bits()` bits (in the RFC 9639 layout, so that a decoder
+//   reads the same component back); no argument combination makes a constructor or `verify()`
+//   panic.
+//
+// Conventions of this file
+// * slice LENGTHS are concrete per call of a body fn (README pitfall 1); every scalar argument and
+//   every element value is symbolic over its full type unless the unit says otherwise.
+// * "total" == the call returns: Kani reports every reachable panic / arithmetic overflow / failed
+//   (debug_)assert / out-of-bounds index inside the callee as a failed check.
+// * the 64/32-lane reductions called by `Residual::from_parts` are replaced by their scalar
+//   contracts (README pitfall 5); the contracts are proved by c18_find_max_contract /
+//   c18_wrapping_sum_contract below.
+// * `StreamInfo::new` and `FrameHeader::new` are covered by datatype::verif::c17_*.
+
 use crate::bitsink::verif::SpecSink;
 
+// ================================================================================================
+// Callee contracts for the fake-SIMD reductions used by `Residual::from_parts`
+// ================================================================================================
+
+/// contract of `arrayutils::find_max::<N>`: the maximum of the slice, 0 when empty.
+fn contract_find_max<const N: usize>(data: &[u32]) -> u32
+where
+    simd::LaneCount<N>: simd::SupportedLaneCount,
+{
+    let mut m = 0u32;
+    let mut i = 0;
+    while i < data.len() {
+        if data[i] > m {
+            m = data[i];
+        }
+        i += 1;
+    }
+    m
+}
+
+/// contract of `arrayutils::wrapping_sum::<T, N>`: the wrapping sum of the slice.
+fn contract_wrapping_sum<T, const N: usize>(data: &[T]) -> T
+where
+    T: simd::SimdElement + num_traits::WrappingAdd + num_traits::Zero,
+    simd::LaneCount<N>: simd::SupportedLaneCount,
+{
+    let mut s = T::zero();
+    let mut i = 0;
+    while i < data.len() {
+        s = s.wrapping_add(&data[i]);
+        i += 1;
+    }
+    s
+}
+
+//@ unit props=C18 tier=quick kind=bounded timeout=600 funcs="arrayutils::find_max::<64>" bound="slices of 0..=4 elements (the sizes the C18 units use), every u32 value"
 #[kani::proof]
 #[kani::unwind(66)]
-#[kani::stub(std::fmt::format, stub_format)]
-fn c18_probe_residual_new() {
-    let q: [u32; 2] = kani::any();
-    let r: [u32; 2] = kani::any();
-    let p: [u8; 1] = kani::any();
-    let w: usize = kani::any();
-    let res = Residual::new(0, 2, w, &p, &q, &r);
-    kani::cover!(res.is_ok());
+fn c18_find_max_contract() {
+    let a: [u32; 4] = kani::any();
+    let n: usize = kani::any();
+    kani::assume(n <= 4);
+    assert!(find_max::<64>(&a[0..n]) == contract_find_max::<64>(&a[0..n]));
+    kani::cover!(n == 4 && a[3] > a[0]);
 }
+
+//@ unit props=C18 tier=quick kind=bounded timeout=600 funcs="arrayutils::wrapping_sum::<u32, 32>" bound="slices of 0..=4 elements (the sizes the C18 units use), every u32 value"
+#[kani::proof]
+#[kani::unwind(34)]
+fn c18_wrapping_sum_contract() {
+    let a: [u32; 4] = kani::any();
+    let n: usize = kani::any();
+    kani::assume(n <= 4);
+    assert!(wrapping_sum::<u32, 32>(&a[0..n]) == contract_wrapping_sum::<u32, 32>(&a[0..n]));
+    kani::cover!(n == 4 && a[0] == u32::MAX && a[1] == 2);
+}
+
+// ================================================================================================
+// Shared helpers
+// ================================================================================================
+
+/// `count_bits()` does not panic, `write` succeeds without panicking and delivers exactly
+/// `count_bits()` bits.  Returns the written bits for layout checks.
+fn serialises<T: BitRepr>(c: &T) -> SpecSink {
+    let n = c.count_bits();
+    let mut s = SpecSink::new();
+    assert!(c.write(&mut s).is_ok());
+    assert!(s.id.len == n);
+    s
+}
+
+/// Bits `[pos, pos + n)` of the written string as an integer (n <= 32, pos + n <= 64).
+fn field(s: &SpecSink, pos: usize, n: usize) -> u64 {
+    (s.id.w[0] << pos) >> (64 - n)
+}
+
+/// What an RFC 9639 decoder needs of a RESIDUAL (section 9.2.7) in the 4-bit-parameter coding this
+/// crate writes, stated on the component's fields: partition order <= 15 with 2^order parameters,
+/// the block is split evenly, the warm-up samples all lie in the first partition, parameters are
+/// not the escape code (<= 14), every remainder fits its parameter, and the padding of the warm-up
+/// samples is zero.  Returns the number of bits of the coded residual.
+fn spec_residual_wellformed(res: &Residual) -> u64 {
+    let order = res.partition_order as usize;
+    assert!(order <= 15);
+    let nparts = 1usize << order;
+    assert!(res.rice_params.len() == nparts);
+    assert!(res.quotients.len() == res.block_size);
+    assert!(res.remainders.len() == res.block_size);
+    assert!(res.block_size <= 32767);
+    assert!(res.block_size % nparts == 0);
+    let part_len = res.block_size / nparts;
+    assert!(res.warmup_length <= part_len);
+    let mut bits: u64 = 6 + 4 * nparts as u64;
+    let mut i = 0;
+    while i < res.rice_params.len() {
+        assert!(res.rice_params[i] <= 14);
+        i += 1;
+    }
+    let mut t = 0;
+    while t < res.block_size {
+        if t < res.warmup_length {
+            assert!(res.quotients[t] == 0 && res.remainders[t] == 0);
+        } else {
+            let p = res.rice_params[t / part_len];
+            assert!((res.remainders[t] as u64) < (1u64 << p));
+            bits += res.quotients[t] as u64 + 1 + p as u64;
+        }
+        t += 1;
+    }
+    bits
+}
+
+// ================================================================================================
+// Residual
+// ================================================================================================
+
+/// TOTALITY of `Residual::new`: all three slice lengths concrete, everything else (partition
+/// order, block size, warm-up length, every element) symbolic over the full type.
+fn residual_new_total<const NP: usize, const NQ: usize, const NR: usize>(consistent: bool) {
+    let p: [u8; NP] = kani::any();
+    let q: [u32; NQ] = kani::any();
+    let r: [u32; NR] = kani::any();
+    let order: usize = kani::any();
+    let bs: usize = kani::any();
+    let w: usize = kani::any();
+    let res = Residual::new(order, bs, w, &p, &q, &r);
+    match res {
+        Ok(c) => {
+            // no silent re-interpretation of the arguments (e.g. `order as u8`)
+            assert!(c.partition_order() == order && c.block_size() == bs);
+            assert!(c.warmup_length() == w);
+            assert!(NQ == bs && NR == bs && NP == (1usize << order));
+        }
+        Err(_) => {}
+    }
+    if consistent {
+        kani::cover!(Residual::new(order, bs, w, &p, &q, &r).is_ok());
+    }
+}
+
+macro_rules! residual_new_total_harness {
+    ($name:ident, $np:expr, $nq:expr, $nr:expr, $consistent:expr) => {
+        #[kani::proof]
+        #[kani::unwind(8)]
+        #[kani::stub(std::fmt::format, stub_format)]
+        #[kani::stub(find_max, contract_find_max)]
+        #[kani::stub(wrapping_sum, contract_wrapping_sum)]
+        fn $name() {
+            residual_new_total::<$np, $nq, $nr>($consistent);
+        }
+    };
+}
+
+//@ unit name=c18_residual_new_total_p1_q2_r2 props=C18 tier=quick kind=bounded timeout=600 funcs="Residual::new; Residual::from_parts; Residual::verify" stubs="find_max -> scalar maximum (c18_find_max_contract); wrapping_sum -> scalar wrapping sum (c18_wrapping_sum_contract)" bound="1 rice parameter, 2 quotients, 2 remainders; order, block size, warm-up length and all values symbolic"
+//@ unit name=c18_residual_new_total_p2_q4_r4 props=C18 tier=quick kind=bounded timeout=600 funcs="Residual::new; Residual::from_parts; Residual::verify" stubs="find_max -> scalar maximum (c18_find_max_contract); wrapping_sum -> scalar wrapping sum (c18_wrapping_sum_contract)" bound="2 rice parameters, 4 quotients, 4 remainders; order, block size, warm-up length and all values symbolic"
+//@ unit name=c18_residual_new_total_p2_q2_r2 props=C18 tier=quick kind=bounded timeout=600 funcs="Residual::new; Residual::from_parts; Residual::verify" stubs="find_max -> scalar maximum (c18_find_max_contract); wrapping_sum -> scalar wrapping sum (c18_wrapping_sum_contract)" bound="2 rice parameters, 2 quotients, 2 remainders; order, block size, warm-up length and all values symbolic"
+//@ unit name=c18_residual_new_total_p0_q2_r2 props=C18 tier=quick kind=bounded timeout=600 funcs="Residual::new; Residual::from_parts; Residual::verify" stubs="find_max -> scalar maximum (c18_find_max_contract); wrapping_sum -> scalar wrapping sum (c18_wrapping_sum_contract)" bound="NO rice parameter, 2 quotients, 2 remainders; order, block size, warm-up length and all values symbolic"
+//@ unit name=c18_residual_new_total_p1_q2_r1 props=C18 tier=quick kind=bounded timeout=600 funcs="Residual::new; Residual::from_parts; Residual::verify" stubs="find_max -> scalar maximum (c18_find_max_contract); wrapping_sum -> scalar wrapping sum (c18_wrapping_sum_contract)" bound="1 rice parameter, 2 quotients, 1 remainder (lengths disagree); order, block size, warm-up length and all values symbolic"
+//@ unit name=c18_residual_new_total_p1_q0_r0 props=C18 tier=quick kind=bounded timeout=600 funcs="Residual::new; Residual::from_parts; Residual::verify" stubs="find_max -> scalar maximum (c18_find_max_contract); wrapping_sum -> scalar wrapping sum (c18_wrapping_sum_contract)" bound="1 rice parameter, empty block; order, block size, warm-up length and all values symbolic"
+residual_new_total_harness!(c18_residual_new_total_p1_q2_r2, 1, 2, 2, true);
+residual_new_total_harness!(c18_residual_new_total_p2_q4_r4, 2, 4, 4, true);
+residual_new_total_harness!(c18_residual_new_total_p2_q2_r2, 2, 2, 2, true);
+residual_new_total_harness!(c18_residual_new_total_p0_q2_r2, 0, 2, 2, false);
+residual_new_total_harness!(c18_residual_new_total_p1_q2_r1, 1, 2, 1, false);
+residual_new_total_harness!(c18_residual_new_total_p1_q0_r0, 1, 0, 0, true);
+
+/// `Residual::verify()` is the gate for values that did not come through `new` (crate-private
+/// `from_parts`, serde `Deserialize` of arbitrary field values): on ARBITRARY fields it returns,
+/// and `Ok` implies the residual is well-formed per the RFC and serialises to `count_bits()` bits
+/// (== the independently computed size) with the order / first parameter at their positions.
+fn residual_verify_gate<const NP: usize, const NQ: usize, const NR: usize>(consistent: bool) {
+    let res = Residual {
+        partition_order: kani::any(),
+        block_size: kani::any(),
+        warmup_length: kani::any(),
+        rice_params: Vec::from(kani::any::<[u8; NP]>()),
+        quotients: Vec::from(kani::any::<[u32; NQ]>()),
+        remainders: Vec::from(kani::any::<[u32; NR]>()),
+        sum_quotients: kani::any(),
+        sum_rice_params: kani::any(),
+    };
+    let ok = res.verify().is_ok();
+    if ok {
+        let bits = spec_residual_wellformed(&res);
+        let s = serialises(&res);
+        assert!(s.id.len as u64 == bits);
+        assert!(field(&s, 0, 6) == res.partition_order as u64);
+        assert!(field(&s, 6, 4) == res.rice_params[0] as u64);
+    }
+    if consistent {
+        kani::cover!(ok);
+        kani::cover!(ok && res.warmup_length == 1);
+    }
+    kani::cover!(!ok);
+}
+
+macro_rules! residual_verify_gate_harness {
+    ($name:ident, $np:expr, $nq:expr, $nr:expr, $consistent:expr) => {
+        #[kani::proof]
+        #[kani::unwind(8)]
+        #[kani::stub(std::fmt::format, stub_format)]
+        fn $name() {
+            residual_verify_gate::<$np, $nq, $nr>($consistent);
+        }
+    };
+}
+
+//@ unit name=c18_residual_verify_gate_p1_q2_r2 props=C18 tier=quick kind=bounded timeout=600 funcs="Residual::verify; Residual::write; Residual::count_bits" bound="1 rice parameter, 2 quotients, 2 remainders; every field value symbolic"
+//@ unit name=c18_residual_verify_gate_p1_q3_r3 props=C18 tier=quick kind=bounded timeout=600 funcs="Residual::verify; Residual::write; Residual::count_bits" bound="1 rice parameter, 3 quotients, 3 remainders; every field value symbolic"
+//@ unit name=c18_residual_verify_gate_p2_q4_r4 props=C18 tier=quick kind=bounded timeout=600 funcs="Residual::verify; Residual::write; Residual::count_bits" bound="2 rice parameters, 4 quotients, 4 remainders; every field value symbolic"
+//@ unit name=c18_residual_verify_gate_p2_q2_r2 props=C18 tier=quick kind=bounded timeout=600 funcs="Residual::verify; Residual::write; Residual::count_bits" bound="2 rice parameters, 2 quotients, 2 remainders; every field value symbolic"
+//@ unit name=c18_residual_verify_gate_p0_q2_r2 props=C18 tier=quick kind=bounded timeout=600 funcs="Residual::verify" bound="no rice parameter, 2 quotients, 2 remainders; every field value symbolic"
+//@ unit name=c18_residual_verify_gate_p1_q2_r1 props=C18 tier=quick kind=bounded timeout=600 funcs="Residual::verify" bound="1 rice parameter, 2 quotients, 1 remainder; every field value symbolic"
+//@ unit name=c18_residual_verify_gate_p1_q0_r0 props=C18 tier=quick kind=bounded timeout=600 funcs="Residual::verify; Residual::write; Residual::count_bits" bound="1 rice parameter, empty block; every field value symbolic"
+residual_verify_gate_harness!(c18_residual_verify_gate_p1_q2_r2, 1, 2, 2, true);
+residual_verify_gate_harness!(c18_residual_verify_gate_p1_q3_r3, 1, 3, 3, true);
+residual_verify_gate_harness!(c18_residual_verify_gate_p2_q4_r4, 2, 4, 4, true);
+residual_verify_gate_harness!(c18_residual_verify_gate_p2_q2_r2, 2, 2, 2, true);
+residual_verify_gate_harness!(c18_residual_verify_gate_p0_q2_r2, 0, 2, 2, false);
+residual_verify_gate_harness!(c18_residual_verify_gate_p1_q2_r1, 1, 2, 1, false);
+residual_verify_gate_harness!(c18_residual_verify_gate_p1_q0_r0, 1, 0, 0, false);
+
+/// `Residual::new(..) == Ok(c)`  ==>  `c.verify()` is Ok, `c` is well-formed, and it serialises to
+/// exactly `count_bits()` bits.  Partition order and block size concrete (consistent with the
+/// slice lengths), warm-up length and all values symbolic.
+fn residual_new_ok_serialises<const NP: usize, const N: usize>(order: usize) {
+    let p: [u8; NP] = kani::any();
+    let q: [u32; N] = kani::any();
+    let r: [u32; N] = kani::any();
+    let w: usize = kani::any();
+    match Residual::new(order, N, w, &p, &q, &r) {
+        Ok(c) => {
+            assert!(c.verify().is_ok());
+            let bits = spec_residual_wellformed(&c);
+            let s = serialises(&c);
+            assert!(s.id.len as u64 == bits);
+            assert!(field(&s, 0, 6) == order as u64);
+            assert!(field(&s, 6, 4) == p[0] as u64);
+            // accessors report the arguments
+            assert!(c.rice_parameter(0) == p[0] as usize);
+            kani::cover!(w == 1);
+            kani::cover!(w == 0 && q[0] == 3);
+        }
+        Err(_) => {}
+    }
+}
+
+macro_rules! residual_new_ok_harness {
+    ($name:ident, $np:expr, $n:expr, $order:expr) => {
+        #[kani::proof]
+        #[kani::unwind(8)]
+        #[kani::stub(std::fmt::format, stub_format)]
+        #[kani::stub(find_max, contract_find_max)]
+        #[kani::stub(wrapping_sum, contract_wrapping_sum)]
+        fn $name() {
+            residual_new_ok_serialises::<$np, $n>($order);
+        }
+    };
+}
+
+//@ unit name=c18_residual_new_ok_o0_n2 props=C18 tier=quick kind=bounded timeout=600 funcs="Residual::new; Residual::verify; Residual::write; Residual::count_bits" stubs="find_max -> scalar maximum (c18_find_max_contract); wrapping_sum -> scalar wrapping sum (c18_wrapping_sum_contract)" bound="partition order 0, block size 2; warm-up length and all values symbolic"
+//@ unit name=c18_residual_new_ok_o0_n3 props=C18 tier=thorough kind=bounded timeout=900 funcs="Residual::new; Residual::verify; Residual::write; Residual::count_bits" stubs="find_max -> scalar maximum (c18_find_max_contract); wrapping_sum -> scalar wrapping sum (c18_wrapping_sum_contract)" bound="partition order 0, block size 3; warm-up length and all values symbolic"
+//@ unit name=c18_residual_new_ok_o1_n4 props=C18 tier=quick kind=bounded timeout=600 funcs="Residual::new; Residual::verify; Residual::write; Residual::count_bits" stubs="find_max -> scalar maximum (c18_find_max_contract); wrapping_sum -> scalar wrapping sum (c18_wrapping_sum_contract)" bound="partition order 1, block size 4; warm-up length and all values symbolic"
+residual_new_ok_harness!(c18_residual_new_ok_o0_n2, 1, 2, 0);
+residual_new_ok_harness!(c18_residual_new_ok_o0_n3, 1, 3, 0);
+residual_new_ok_harness!(c18_residual_new_ok_o1_n4, 2, 4, 1);
